@@ -576,6 +576,96 @@ def main():
     lr.append("end Aidl.Gen")
     lr.append("")
 
+    # ---------------- completeness certificate: LR(1) items (checked in Lean, not trusted) ----------------
+    # The items of every state are reconstructed from the productions and the tables: closure under
+    # the productions of the symbol after the dot (lookaheads: FIRST of what follows), transitions by
+    # shift / GOTO, propagated to a fixpoint. `Items.ok` (Props/LrComplete.lean) then checks the
+    # conditions of Jourdan-Pottier-Leroy's validator on the result.
+    EOFB = ncols
+    nsym = ncols + nnt
+    nullable = [False] * nsym
+    first = [0] * nsym
+    for c in range(ncols):
+        first[c] = 1 << c
+    changed = True
+    while changed:
+        changed = False
+        for ids, nt, accept in prod_info:
+            if accept:
+                continue
+            X = ncols + nt
+            allnull, f = True, 0
+            for y in ids:
+                f |= first[y]
+                if not nullable[y]:
+                    allnull = False
+                    break
+            if allnull and not nullable[X]:
+                nullable[X] = True
+                changed = True
+            if f | first[X] != first[X]:
+                first[X] |= f
+                changed = True
+    def first_seq(ids, amask):
+        f = 0
+        for y in ids:
+            f |= first[y]
+            if not nullable[y]:
+                return f
+        return f | amask
+    def delta(q, X):
+        if X < ncols:
+            a = nums[q * ncols + X]
+            return a - 1 if a > 0 else None
+        return goto_of(q, X - ncols)
+    items = [dict() for _ in range(nstates)]
+    def add_item(q, p, dot, m):
+        old = items[q].get((p, dot), 0)
+        if old | m != old:
+            items[q][(p, dot)] = old | m
+            return True
+        return False
+    for p, (ids, nt, accept) in enumerate(prod_info):
+        if accept:
+            add_item(0, p, 0, 1 << EOFB)
+    work = True
+    while work:
+        work = False
+        for q in range(nstates):
+            for (p, dot), m in list(items[q].items()):
+                ids = prod_info[p][0]
+                if dot < len(ids):
+                    X = ids[dot]
+                    if X >= ncols:
+                        fm = first_seq(ids[dot + 1:], m)
+                        for p2 in prods_of[X - ncols]:
+                            if not prod_info[p2][2] and add_item(q, p2, 0, fm):
+                                work = True
+                    q2 = delta(q, X)
+                    if q2 is not None and 0 <= q2 < nstates and add_item(q2, p, dot + 1, m):
+                        work = True
+    li = ["import AidlVerif.Model.Lr", "",
+          "/-! GENERATED by tools/gen_parser_tables.py from the generated parser — do not edit. -/", "",
+          "namespace Aidl.Gen", ""]
+    def table_fn2(name, var, ty, leaves, default, doc):
+        li.append(f"/-- {doc} -/")
+        li.append(f"def {name} ({var} : Nat) : {ty} :=")
+        li.append(f"  cond (Nat.blt {var} {len(leaves)})\n    (" + tree(leaves, 0, len(leaves), var, 4) + f")\n    ({default})")
+        li.append("")
+    table_fn2("certItems", "q", "List (Nat × Nat × Nat)",
+              ["[" + ", ".join(f"({p}, {dot}, {m})" for (p, dot), m in sorted(items[q].items())) + "]" for q in range(nstates)],
+              "[]", "state ↦ LR(1) items (production, dot, lookahead mask; bit ncols = end of input)")
+    table_fn2("certActRow", "q", "List (Nat × Int)",
+              ["[" + ", ".join(f"({c}, {nums[q * ncols + c]})" for c in range(ncols) if nums[q * ncols + c] != 0) + "]"
+               for q in range(nstates)], "[]", "state ↦ non-zero ACTION entries")
+    table_fn2("certEofAct", "q", "Int", [str(x) if x >= 0 else f"({x})" for x in eof], "0", "state ↦ EOF_ACTION")
+    table_fn2("certNullable", "x", "Bool", ["true" if b else "false" for b in nullable], "false", "symbol ↦ nullable")
+    table_fn2("certFirst", "x", "Nat", [str(m) for m in first], "0", "symbol ↦ FIRST (mask of terminal columns)")
+    li.append(f"def certNStates : Nat := {nstates}")
+    li.append("")
+    li.append("end Aidl.Gen")
+    li.append("")
+
     # ---------------- actions ----------------
     i0 = full.index("pub(crate) use self::__lalrpop_util::lexer::Token;")
     tail = full[i0:]
@@ -960,6 +1050,8 @@ def main():
         changed.append("LrTables")
     if write_if_changed(os.path.join(gen_dir, "Actions.lean"), "\n".join(ac)):
         changed.append("Actions")
+    if write_if_changed(os.path.join(gen_dir, "LrItems.lean"), "\n".join(li)):
+        changed.append("LrItems")
     print(f"gen_parser_tables: {nstates} states x {ncols} columns, {len(prods)} productions, {len(acts)} actions "
           f"({len(prints)} with user text), {len(entries)} lexer entries" + (" (rewritten: " + ", ".join(changed) + ")" if changed else " (unchanged)"))
 
